@@ -1283,7 +1283,17 @@ func c05GenHistory(rng *Rng, kind, n int) []string {
 		{22, 10, 18, 4, 6, 5, 5, 4, 8, 12, 2, 4},
 		{14, 6, 6, 8, 4, 2, 2, 2, 4, 6, 2, 4},
 	}[kind]
-	if kind == 4 {
+	if kind == 4 && rng.Chance(55) {
+		// a synthetic Excel-like package (c05_synth.go)
+		variant, flags := c05SynthPick(rng)
+		if data := c05Synth(variant, flags); data != nil {
+			g.emit("h.openbytes", hx(string(data)))
+			g.emit("h.save") // the untouched input must survive a plain round trip
+			g.sheets = []string{"Sheet1", "Data"}
+		} else {
+			g.emit("h.new")
+		}
+	} else if kind == 4 {
 		fx := rng.Pick([]string{"Book1.xlsx", "CalcChain.xlsx", "MergeCell.xlsx", "SharedStrings.xlsx", "Book1.xlsx"})
 		g.emit("h.open", fx)
 		g.sheets = c05FixtureSheets(fx)
